@@ -23,6 +23,7 @@ import shutil
 from pathlib import Path
 
 LEVEL = "model_checking"
+MODES = ("direct", "as-input")
 WATCHDOG_S = 60
 
 
@@ -102,7 +103,7 @@ def run_history(fam, hist, scratch: Path, tag="h"):
 
 
 # ------------------------------------------------------------------------------------------------ oracle + signatures
-def judge(aspect, hist, obs, ref):
+def judge(aspect, hist, obs, ref, mode="direct"):
     """-> None | (signature, text) for the LAST submission of `hist` (observation `obs`)"""
     y = hist[-1]
     if obs == ("ok", ref[y]):
@@ -112,22 +113,35 @@ def judge(aspect, hist, obs, ref):
     # narrow structural class: the submission was answered with the outputs of ANOTHER variant submitted earlier into the
     # same root, i.e. the two variants (differing in `aspect` only) share a cache entry
     donors = [x for x in hist[:-1] if x != y and ref[x] == obs[1]]
-    sig = f"{aspect}-shares-cache-entry" if donors else None
+    sig = (f"{aspect}-shares-cache-entry" if mode == "direct" else f"task-as-input-value:{aspect}-shares-cache-entry") if donors else None
     return (sig, f"history {hist}: {y!r} returned {obs[1]}" + (f" = the outputs of {donors[0]!r}" if donors else "")
             + f"; executed alone in a fresh cache root it returns {ref[y]}")
 
 
 # ------------------------------------------------------------------------------------------------ search
-def search(part, fname, depth_cap, thorough):
+def family(fname, mode, thorough=True, scratch=None):
+    """the family as evaluated: mode 'direct' = the variants are submitted themselves; 'as-input' = every variant is the
+    input VALUE of one and the same outer python task (vt.tasks_c06.run_inner) which is what gets submitted"""
     from vt import tasks_c06 as T
     fam = T.families(True)[fname]
     active = [v[0] for v in T.families(thorough)[fname]["variants"]]
     variants = [v for v in fam["variants"] if v[0] in active]
-    fam = dict(fam, variants=variants)
-    aspect = fam["aspect"]
-    scratch = part.scratch / "c06" / fname
+    if mode == "as-input":
+        variants = [T.as_input(v) for v in variants]
+        tmp = Path(scratch) / "inner_tmp"
+        tmp.mkdir(parents=True, exist_ok=True)
+        os.environ["VT_C06_TMP"] = str(tmp)
+    return dict(fam, variants=variants)
+
+
+def search(part, fname, mode, thorough):
+    scratch = part.scratch / "c06" / f"{fname}@{mode}"
     shutil.rmtree(scratch, ignore_errors=True)
     scratch.mkdir(parents=True)
+    fam = family(fname, mode, thorough, scratch)
+    variants = fam["variants"]
+    depth_cap = len(variants) + 1
+    aspect = fam["aspect"]
     ref = fresh_reference(fam, scratch)
     root, snaps = scratch / "root", scratch / "snaps"
     snaps.mkdir()
@@ -169,16 +183,17 @@ def search(part, fname, depth_cap, thorough):
             last_hist = h
             # non-trivial: the root already holds the result of a DIFFERENT variant of the family
             part.case(key=(fname, key, vid), nontrivial=any(x != vid for x in hist))
-            bad = judge(aspect, h, obs, ref)
+            bad = judge(aspect, h, obs, ref, mode)
             if bad:
                 # proof obligation: reproduce from scratch (empty new root at another path) before reporting
                 again = run_history(fam, h, scratch, "again")
-                bad2 = judge(aspect, h, again[-1], ref)
+                bad2 = judge(aspect, h, again[-1], ref, mode)
                 if not bad2:
                     raise RuntimeError(f"violation did not reproduce when the history {h} was replayed from an empty root: "
                                        f"{bad[1]}")
                 nviol += 1
-                part.violation(bad2[0], dict(family=fname, history=h), f"[{fname}: variants differ in {aspect}] {bad2[1]}")
+                part.violation(bad2[0], dict(family=fname, mode=mode, history=h),
+                               f"[{fname}, {mode}: variants differ in {aspect}] {bad2[1]}")
             new_state = scan(root)
             nk = snapshot(new_state)
             if nk not in seen:
@@ -194,15 +209,15 @@ def search(part, fname, depth_cap, thorough):
     if capped:
         part.capped = True
     part.coverage.setdefault("searches", []).append(dict(
-        family=fname, aspect=aspect, variants=[v[0] for v in variants], states=len(seen), transitions=transitions,
+        family=fname, mode=mode, aspect=aspect, variants=[v[0] for v in variants], states=len(seen), transitions=transitions,
         max_depth=maxdepth, depth_cap=depth_cap, fixed_point=not capped, violating_transitions=nviol))
-    part.sample(dict(family=fname, history=last_hist, outputs_alone=ref[last_hist[-1]]))
+    part.sample(dict(family=fname, mode=mode, history=last_hist, outputs_alone=ref[last_hist[-1]]))
     shutil.rmtree(scratch, ignore_errors=True)
 
 
 def work(part, chunk):
-    for fname, depth_cap, thorough in chunk:
-        search(part, fname, depth_cap, thorough)
+    for fname, mode, thorough in chunk:
+        search(part, fname, mode, thorough)
 
 
 def run(ctx):
@@ -212,7 +227,7 @@ def run(ctx):
     # a state is a set of cache entries and every submission adds at most one, so depth = number of variants + 1 closes the
     # search (both tiers run to this fixed point; thorough has more variants per family).  All histories of length <= 3 are
     # covered: every ordered pair (X, Y) is a path, and every third submission is a transition out of the state reached.
-    items = [(name, len(f["variants"]) + 1, ctx.thorough) for name, f in fams.items()]
+    items = [(name, mode, ctx.thorough) for name in fams for mode in MODES]
     # biggest families first
     items.sort(key=lambda it: -len(fams[it[0]]["variants"]))
     ctx.rule = ("one BFS per one-aspect family over cache-root states; transition = real submission of one variant into the "
@@ -235,11 +250,11 @@ def run(ctx):
 
 
 def replay(ctx, case):
-    from vt import tasks_c06 as T
-    fam = T.families(True)[case["family"]]
     scratch = ctx.scratch / "replay"
     scratch.mkdir(parents=True, exist_ok=True)
+    mode = case.get("mode", "direct")
+    fam = family(case["family"], mode, True, scratch)
     ref = fresh_reference(fam, scratch)
     obs = run_history(fam, case["history"], scratch)
-    bad = judge(fam["aspect"], case["history"], obs[-1], ref)
-    return f"[{case['family']}] {bad[1]}" if bad else None
+    bad = judge(fam["aspect"], case["history"], obs[-1], ref, mode)
+    return f"[{case['family']}, {mode}] {bad[1]}" if bad else None
